@@ -20,7 +20,7 @@ pub const OPS: &[&str] = &[
     "pow.boxed.bounded", "pow.boxed.bounded_trait", "pow.boxed.full", "pow.boxed.generic",
     "multiexp.array.monty_bounded", "multiexp.array.monty_full", "multiexp.array.const_bounded", "multiexp.array.const_full",
     "multiexp.slice.monty_bounded", "multiexp.slice.monty_full", "multiexp.slice.const_bounded", "multiexp.slice.const_full",
-    "lincomb.fixed.monty", "lincomb.fixed.monty_trait", "lincomb.fixed.const",
+    "lincomb.fixed.monty", "lincomb.fixed.monty_trait", "lincomb.fixed.const", "lincomb.fixed.monty_selected1", "lincomb.fixed.monty_selected0",
     "lincomb.boxed.inherent", "lincomb.boxed.trait",
 ];
 
@@ -101,6 +101,22 @@ fn mexp_monty<const N: usize, const R: usize>(op: &str, a: &Args) -> Option<Out>
 }
 fn lincomb_monty<const N: usize>(op: &str, a: &Args) -> Option<Out> {
     let params = MontyParams::new_vartime(odd(u::<N>(ar(a, 0))));
+    // the same parameters obtained by a constant-time selection against the parameters of the modulus 3 (whose
+    // leading-zero count is the maximum): the accumulation window of lincomb must be that of the CHOSEN modulus
+    let params = match op {
+        "lincomb.fixed.monty_selected1" => {
+            use subtle::{Choice, ConditionallySelectable};
+            let other = MontyParams::new_vartime(odd(Uint::<N>::from(3u64)));
+            MontyParams::<N>::conditional_select(&other, &params, Choice::from(1))
+        }
+        "lincomb.fixed.monty_selected0" => {
+            use subtle::{Choice, ConditionallySelectable};
+            let other = MontyParams::new_vartime(odd(Uint::<N>::from(3u64)));
+            MontyParams::<N>::conditional_select(&params, &other, Choice::from(0))
+        }
+        _ => params,
+    };
+    let op = if op.starts_with("lincomb.fixed.monty_selected") { "lincomb.fixed.monty" } else { op };
     let vals: Vec<MontyForm<N>> = (1..a.len()).map(|i| MontyForm::new(&u::<N>(ar(a, i)), params)).collect();
     let prods: Vec<(&MontyForm<N>, &MontyForm<N>)> = (0..vals.len() / 2).map(|i| (&vals[2 * i], &vals[2 * i + 1])).collect();
     let r = match op {
@@ -302,7 +318,8 @@ pub fn run(op: &str, a: &Args) -> Option<Out> {
         return with_nr!(n, ar(a, 3).len(), mexp_monty, op, a);
     }
     match op {
-        "lincomb.fixed.monty" | "lincomb.fixed.monty_trait" => with_n!(n, [1, 2, 4, 8, 16], lincomb_monty, op, a),
+        "lincomb.fixed.monty" | "lincomb.fixed.monty_trait" | "lincomb.fixed.monty_selected1" | "lincomb.fixed.monty_selected0" =>
+            with_n!(n, [1, 2, 4, 8, 16], lincomb_monty, op, a),
         "lincomb.fixed.const" => lincomb_const_dispatch(a),
         "lincomb.boxed.inherent" | "lincomb.boxed.trait" => lincomb_boxed(op, a),
         _ => None,
